@@ -888,6 +888,7 @@ PY_MODELS = {_traceback.print_exc: m_print_exc}
 ALWAYS = {}
 
 _BUILTIN_METHOD = type(''.join)
+_CMETHOD = type(_re.compile('').match)   # PyCMethod objects have their own type ('builtin_method')
 _PASS_NATIVE = {list, tuple, sorted, sum, min, max, all, any, len, abs, iter, next, enumerate, zip, reversed,
                 map, filter, getattr, hasattr, setattr, callable, id, print, dict, set, frozenset, slice,
                 _operator.add, _operator.sub, _operator.mul, _operator.truediv, _operator.gt, _operator.lt,
@@ -937,7 +938,7 @@ def sym_call(f, *a, **kw):
             UNMODELLED_LOG[q] = UNMODELLED_LOG.get(q, 0) + 1
             raise Unmodelled('library function %s with symbolic argument' % q)
         return f(*a, **kw)
-    if tf is _BUILTIN_METHOD or tf is types.BuiltinFunctionType:
+    if tf is _BUILTIN_METHOD or tf is types.BuiltinFunctionType or tf is _CMETHOD:
         recv = getattr(f, '__self__', None)
         if isinstance(recv, str):
             if f.__name__ == 'join' or any_symbolic(a, kw):
@@ -966,7 +967,7 @@ def sym_call(f, *a, **kw):
                 return f(*a, **kw)
         except TypeError:
             pass
-        if tf in (types.BuiltinFunctionType, _BUILTIN_METHOD, type, types.MethodDescriptorType,
+        if tf in (types.BuiltinFunctionType, _BUILTIN_METHOD, _CMETHOD, type, types.MethodDescriptorType,
                   types.WrapperDescriptorType, types.MethodWrapperType):
             recv = getattr(f, '__self__', None)
             for hook in CALL_HOOKS:
